@@ -20,6 +20,9 @@ def main(argv=None):
     if args.replay:
         from . import replaycli
         return replaycli.main(args.prop, args.replay)
+    if args.prop == 'crosscheck':
+        from . import crosscheck
+        return crosscheck.main(args.modules or None)
     if args.prop not in PROPS:
         print('no check for %s' % args.prop)
         return 2
